@@ -133,8 +133,8 @@ func genAV1TU(t *core.Tape, mtu int) ([]av1OBU, []byte) {
 		if size < 0 {
 			size = 0
 		}
-		if size > 40000 {
-			size = 40000
+		if size > 140000 {
+			size = 140000
 		}
 		o.payload = t.Bytes(size)
 		o.hasSize = !(omitLastSize && i == n-1)
